@@ -288,6 +288,33 @@ class Ref:
     # converted by the library on the way out and on the way in
     _STYPE_WIRE = ("tuple", "Tuple", (("date",), ("int",)))
 
+    _BOXED_WIRE = ("seq", "List", ("date",))
+
+    def _boxed(self, t):
+        df = self.fam.defs[t[1]]
+        return df["flavour"], getattr(self.fam.module, t[1] + "_S")
+
+    def _e_boxed(self, t, v, ctx):
+        fl, strat = self._boxed(t)
+        if fl == "dict":
+            return strat["serialize"](v)
+        raw = strat.serialize(v)
+        if fl == "plain":
+            return raw
+        return self.enc(self._BOXED_WIRE, raw, dataclasses.replace(ctx, nt_engine_field=None))
+
+    def _d_boxed(self, t, d, ctx):
+        fl, strat = self._boxed(t)
+        if fl == "dict":
+            return self._call(strat["deserialize"], d)
+        if fl != "plain":
+            d = self.dec(self._BOXED_WIRE, d, dataclasses.replace(ctx, nt_engine_field=None))
+        return self._call(strat.deserialize, d)
+
+    def _c_boxed(self, t, v):
+        import datetime
+        return type(v) is self.fam.get(t[1]) and type(v.items) is list and all(type(x) is datetime.date for x in v.items)
+
     def _e_stype(self, t, v, ctx):
         raw = v._serialize()
         if self.fam.defs[t[1]]["flavour"] == "plain":
